@@ -459,6 +459,24 @@ func Check(s Spec, lg *Log, p Params) (Summary, []Finding) {
 		}
 	}
 
+	// (6) the -count validators are exactly the validator list: distinct indices 0..count-1
+	seenIdx := map[int]int{}
+	for id := 0; id < s.Count; id++ {
+		idx, ok := lg.Index[id]
+		if !ok {
+			continue
+		}
+		if idx < 0 || idx >= s.Count {
+			fs = append(fs, Finding{Sig: "validator-not-in-list", What: fmt.Sprintf("node %d of the %d validators runs with validator index %d", id, s.Count, idx)})
+			break
+		}
+		if other, dup := seenIdx[idx]; dup {
+			fs = append(fs, Finding{Sig: "validator-index-shared", What: fmt.Sprintf("nodes %d and %d both run with validator index %d", other, id, idx)})
+			break
+		}
+		seenIdx[idx] = id
+	}
+
 	// race detector
 	for _, r := range lg.Races {
 		fs = append(fs, Finding{Sig: "data-race:" + r.Key, What: fmt.Sprintf("race detector reported a data race (%d reports with these top frames)", r.Count)})
